@@ -19,6 +19,7 @@ import (
 var registry = map[string]func(*rules.Ctx){
 	"C01": rules.C01,
 	"C02": rules.C02,
+	"C03": rules.C03,
 	"C04": rules.C04,
 	"C05": rules.C05,
 	"C06": rules.C06,
@@ -26,6 +27,7 @@ var registry = map[string]func(*rules.Ctx){
 	"C08": rules.C08,
 	"C09": rules.C09,
 	"C10": rules.C10,
+	"C11": rules.C11,
 	"C12": rules.C12,
 	"C13": rules.C13,
 	"C14": rules.C14,
